@@ -42,3 +42,144 @@ fn c17_port_allocator_first_free() {
     kani::cover!(r.is_some() && r.unwrap() < lo + off, "wrapped around");
     kani::cover!(r.is_none(), "exhausted");
 }
+
+// ---------------------------------------------------------------------------------------------------
+// C17-S1: bind matrix. A kernel owning {A, B} (plus implicit loopback) with ONE existing binding of
+// concrete shape (per instance) and one new `bind` whose address/port/type are symbolic over a pool:
+// the result equals the reference predicate, `local_addr` reports what was bound, and the table
+// gains exactly one socket on success and nothing on failure.
+use crate::kernel::Kernel;
+use crate::verif_common::{take, Outcome};
+use std::net::{Ipv4Addr, Ipv6Addr, SocketAddr};
+
+const A: IpAddr = IpAddr::V4(Ipv4Addr::new(10, 0, 0, 1));
+const B: IpAddr = IpAddr::V4(Ipv4Addr::new(10, 0, 0, 2));
+const C_NONLOCAL: IpAddr = IpAddr::V4(Ipv4Addr::new(10, 0, 0, 3));
+const WILD4: IpAddr = IpAddr::V4(Ipv4Addr::UNSPECIFIED);
+const LO4: IpAddr = IpAddr::V4(Ipv4Addr::LOCALHOST);
+const WILD6: IpAddr = IpAddr::V6(Ipv6Addr::UNSPECIFIED);
+const LO6: IpAddr = IpAddr::V6(Ipv6Addr::LOCALHOST);
+
+fn pool_ip(sel: u8) -> IpAddr {
+    match sel % 7 {
+        0 => A,
+        1 => B,
+        2 => C_NONLOCAL,
+        3 => WILD4,
+        4 => LO4,
+        5 => WILD6,
+        _ => LO6,
+    }
+}
+
+fn install(k: &mut Kernel, ip: IpAddr, port: u16, ty: Type) -> Fd {
+    let domain = if ip.is_ipv4() { Domain::Inet } else { Domain::Inet6 };
+    let key = BindKey { domain, ty, local_addr: ip, local_port: port };
+    let mut st = Socket::new(domain, ty);
+    st.bound = Some(key.clone());
+    let fd = k.sockets.insert(st);
+    k.sockets.insert_binding(key, fd);
+    fd
+}
+
+fn bind_matrix(ex_ip: IpAddr, ex_ty: Type) {
+    let mut k = Kernel::new();
+    k.add_address(A);
+    k.add_address(B);
+    let ex_port: u16 = 5000;
+    let _ex = install(&mut k, ex_ip, ex_port, ex_ty);
+    let ip = pool_ip(kani::any());
+    let port: u16 = if kani::any() { 5000 } else { 5001 };
+    let ty = if kani::any() { Type::Stream } else { Type::Dgram };
+    let n_before = k.sockets.iter().count();
+    let (fd, o) = take(k.bind(&Addr::Inet(SocketAddr::new(ip, port)), ty));
+    let local = ip.is_unspecified() || ip.is_loopback() || ip == A || ip == B;
+    let same_proto = ty == ex_ty && ip.is_ipv4() == ex_ip.is_ipv4();
+    let conflict = same_proto && port == ex_port && (ip == ex_ip || ip.is_unspecified() || ex_ip.is_unspecified());
+    let expect = if !local {
+        Outcome::AddrNotAvailable
+    } else if conflict {
+        Outcome::AddrInUse
+    } else {
+        Outcome::Ok
+    };
+    assert!(o == expect);
+    if o == Outcome::Ok {
+        let fd = fd.unwrap();
+        assert!(k.sockets.iter().count() == n_before + 1);
+        let (la, lo) = take(k.local_addr(fd));
+        assert!(lo == Outcome::Ok && la == Some(Addr::Inet(SocketAddr::new(ip, port))), "local_addr reports what was bound");
+        let st = k.sockets.get(fd).unwrap();
+        assert!(st.ty == ty && st.tcb.is_none() && st.listen.is_none());
+        // closing frees the key: the same bind succeeds again
+        k.close(fd);
+        assert!(k.sockets.iter().count() == n_before);
+        let (fd2, o2) = take(k.bind(&Addr::Inet(SocketAddr::new(ip, port)), ty));
+        assert!(o2 == Outcome::Ok && fd2.is_some(), "close frees the binding");
+    } else {
+        assert!(fd.is_none() && k.sockets.iter().count() == n_before, "a failed bind leaves no trace");
+    }
+    kani::cover!(o == Outcome::AddrInUse, "conflict detected");
+    kani::cover!(o == Outcome::AddrNotAvailable, "foreign address refused");
+    kani::cover!(o == Outcome::Ok && port == ex_port && ty == ex_ty, "same port coexists");
+    std::mem::forget(k);
+}
+
+// @verif id=C17 tier=quick role=bind_matrix timeout=900 desc=existing=A:5000/udp
+crate::verif_proof! { unwind = 18;
+fn c17_bind_matrix_vs_specific_udp() { bind_matrix(A, Type::Dgram); }
+}
+// @verif id=C17 tier=quick role=bind_matrix timeout=900 desc=existing=0.0.0.0:5000/tcp
+crate::verif_proof! { unwind = 18;
+fn c17_bind_matrix_vs_wildcard_tcp() { bind_matrix(WILD4, Type::Stream); }
+}
+// @verif id=C17 tier=thorough role=bind_matrix timeout=1800 desc=existing=[::]:5000/udp
+crate::verif_proof! { unwind = 18;
+fn c17_bind_matrix_vs_wildcard6_udp() { bind_matrix(WILD6, Type::Dgram); }
+}
+// @verif id=C17 tier=thorough role=bind_matrix timeout=1800 desc=existing=127.0.0.1:5000/tcp
+crate::verif_proof! { unwind = 18;
+fn c17_bind_matrix_vs_loopback_tcp() { bind_matrix(LO4, Type::Stream); }
+}
+
+// C17-S2 (port 0): an ephemeral bind yields a port in the range that is not bound at ANY local
+// address for that protocol, starting from the allocator cursor with wrap-around.
+fn bind_ephemeral(ex_ip: IpAddr) {
+    let mut k = Kernel::new();
+    k.add_address(A);
+    k.add_address(B);
+    k.sockets.ports = PortAllocator::new(50000..=50002);
+    let off: u16 = kani::any();
+    kani::assume(off <= 2);
+    k.sockets.ports.cursor = 50000 + off;
+    let ex_off: u16 = kani::any();
+    kani::assume(ex_off <= 2);
+    let ex_port = 50000 + ex_off;
+    let ex_ty = if kani::any() { Type::Stream } else { Type::Dgram };
+    let _ex = install(&mut k, ex_ip, ex_port, ex_ty);
+    let ip = if kani::any() { A } else { LO4 };
+    let (fd, o) = take(k.bind(&Addr::Inet(SocketAddr::new(ip, 0)), Type::Dgram));
+    assert!(o == Outcome::Ok, "two of three ports are always free");
+    let (la, _) = take(k.local_addr(fd.unwrap()));
+    let Some(Addr::Inet(sa)) = la else { panic!("bound") };
+    assert!(sa.ip() == ip && sa.port() >= 50000 && sa.port() <= 50002);
+    let taken = ex_ty == Type::Dgram && ex_ip.is_ipv4();
+    if taken {
+        assert!(sa.port() != ex_port, "never a port in use at any local address of the protocol");
+    }
+    let first = 50000 + off;
+    let expect = if taken && first == ex_port { if first == 50002 { 50000 } else { first + 1 } } else { first };
+    assert!(sa.port() == expect, "first free port from the cursor, cyclically");
+    assert!(k.sockets.ports.cursor >= 50000 && k.sockets.ports.cursor <= 50002);
+    kani::cover!(taken && first == ex_port && first == 50002, "skipped and wrapped");
+    kani::cover!(!taken && first == ex_port, "other protocol does not block");
+    std::mem::forget(k);
+}
+// @verif id=C17 tier=quick role=bind_ephemeral timeout=900 desc=existing-on-B(other-address)
+crate::verif_proof! { unwind = 18;
+fn c17_bind_ephemeral_skips_port_used_on_other_address() { bind_ephemeral(B); }
+}
+// @verif id=C17 tier=thorough role=bind_ephemeral timeout=1800 desc=existing-on-wildcard
+crate::verif_proof! { unwind = 18;
+fn c17_bind_ephemeral_skips_port_used_on_wildcard() { bind_ephemeral(WILD4); }
+}
